@@ -87,7 +87,7 @@ pub fn run_pw(toks: &[&str]) -> String {
 pub fn run_pr(toks: &[&str]) -> String {
     let fault = fault_of(toks[0]);
     let ps: u64 = toks[1].parse().unwrap();
-    let dev = Dev::new(unhex(toks[2]), fault);
+    let dev = Dev::new(resolve_dev(toks[2]), fault);
     let r = guard(|| PagedReader::new(dev.clone(), ps));
     let mut r = match r {
         None => return "new:P".to_string(),
